@@ -2,7 +2,7 @@
 """seeded/RESULTS.md from the matrix runs (.build/matrix*.tsv; later files override earlier rows)."""
 import json, glob, os
 rows = {}
-for fn in ["/verif/.build/matrix.tsv", "/verif/.build/matrix_r2.tsv", "/verif/.build/matrix_r3.tsv", "/verif/.build/matrix_r4.tsv", "/verif/.build/matrix_r5a.tsv", "/verif/.build/matrix_r5b.tsv", "/verif/.build/matrix_r5c.tsv", "/verif/.build/matrix_r6a.tsv", "/verif/.build/matrix_r6b.tsv", "/verif/.build/matrix_r7a.tsv"]:
+for fn in ["/verif/.build/matrix.tsv", "/verif/.build/matrix_r2.tsv", "/verif/.build/matrix_r3.tsv", "/verif/.build/matrix_r4.tsv", "/verif/.build/matrix_r5a.tsv", "/verif/.build/matrix_r5b.tsv", "/verif/.build/matrix_r5c.tsv", "/verif/.build/matrix_r6a.tsv", "/verif/.build/matrix_r6b.tsv", "/verif/.build/matrix_r7a.tsv", "/verif/.build/matrix_r8a.tsv"]:
     if not os.path.exists(fn):
         continue
     for l in open(fn):
@@ -30,6 +30,8 @@ for name in sorted(rows):
     m = json.load(open(f"/verif/seeded/{name}/meta.json"))
     caught += rc == "1"
     note = f" (written for {name.split('-')[0]}; {m['violates']})" if m.get("checked_with") else ""
+    if m.get("missed_because"):
+        note += f" — NOT CAUGHT: {m['missed_because']}"
     out.append(f"| {name} | {pid} | {rc} | {wall} | {m.get('changed','')}{note} | {m.get('needs_to_manifest','')} | {job} |")
 out += ["", f"Caught: {caught} of {len(rows)}."]
 open("/verif/seeded/RESULTS.md", "w").write("\n".join(out) + "\n")
